@@ -285,6 +285,8 @@ def c14(run):
                 nontrivial=lambda e: "cost" in e["out"] and len(set(e["out"]["cost"])) > 2)
     trace_stage(run, "cost-traces", "cost_trace",
                 nontrivial=lambda e: ("cost" in e["out"] and len(set(e["out"]["cost"])) > 2) or "ext" in e["out"])
+    _from_trace_stage(run, "wcet", "cost_trace",
+                      lambda e: "cost" in e["out"] and len(set(e["out"]["cost"])) > 2)
     _cache_stage(run, "wcet")
 
 
@@ -471,6 +473,27 @@ def c05(run):
     _ros_equational(run, "4,5")
 
 
+def _from_trace_stage(run, kind, driver, nontrivial):
+    """R3: the sliding-window inference algorithm as a state machine infers exactly the definitional prefix
+    (MCFromTrace, every trace of the box); spec -> impl: the traces TLC generated are replayed on the implementation"""
+    out = mc_stage(run, "from-trace-machine", "MCFromTrace.tla", "MCFromTrace.cfg", env={"KIND": kind}, workers=4)
+    traces = []
+    for ln in out.splitlines():
+        ln = ln.strip()
+        if ln.startswith('"TRACE '):
+            js = json.loads(ln)[len("TRACE "):]
+            if js not in traces:
+                traces.append(js)
+    if not traces:
+        raise vflib.ToolError("TLC generated no traces")
+    wd = run.sub("from-trace-replay")
+    tp = os.path.join(wd, "traces.ndjson")
+    with open(tp, "w") as f:
+        f.write("\n".join(traces) + "\n")
+    trace_stage(run, "from-trace-replay", driver, extra=["--traces", tp], nontrivial=nontrivial)
+    run.stage("from-trace-replay-source", kind="spec-to-impl", behaviours=len(traces))
+
+
 def _cache_stage(run, kind):
     """histories on shared ExtrapolatingCurve clones, replayed through the CurveCache machine"""
     trace_stage(run, "cache-histories", "cache", spec="TraceCache.tla", cfg="TraceCache.cfg", extra=["--kind", kind],
@@ -523,6 +546,7 @@ def c12(run):
         t = o.get("eta") or o.get("der") or []
         return len(set(t)) > 2
     trace_stage(run, "derived", "c12", nontrivial=nontriv)
+    _from_trace_stage(run, "arrival", "c12", nontriv)
 
 
 @check("C13")
